@@ -27,7 +27,6 @@ type forExpander struct {
 
 	// output fields
 	tokens chan token
-	closed bool
 }
 
 type forStateFn func(f *forExpander) forStateFn
@@ -67,7 +66,7 @@ func (p *forExpander) next() token {
 }
 
 func (f *forExpander) run() {
-	if f.closed || f.atEOF {
+	if f.atEOF {
 		return
 	}
 	for state := forLine; state != nil; {
@@ -75,15 +74,12 @@ func (f *forExpander) run() {
 	}
 
 	// close the channel in case we end without an EOF: a reader still
-	// waiting sees EOF, and we never block when nobody reads any more
+	// waiting sees EOF, and we never block when nobody reads any more.
+	// (readers learn this from the channel alone: no flag shared with them)
 	close(f.tokens)
-	f.closed = true
 }
 
 func (f *forExpander) NextToken() (token, error) {
-	if f.closed {
-		return token{}, fmt.Errorf("no more tokens")
-	}
 	tok, ok := <-f.tokens
 	if !ok {
 		return token{tokEOF, ""}, nil
@@ -92,9 +88,6 @@ func (f *forExpander) NextToken() (token, error) {
 }
 
 func (f *forExpander) Tokens() ([]token, error) {
-	if f.closed {
-		return nil, fmt.Errorf("no more tokens")
-	}
 	tokens := make([]token, 0)
 	for {
 		tok, ok := <-f.tokens
